@@ -98,6 +98,7 @@ fn main() {
         "C16" => fsmon::run::run_model_check(&ctx, "C16", 1500, 50_000),
         "C09" => fsmon::crash::run(&ctx, "C09"),
         "C10" => fsmon::crash::run(&ctx, "C10"),
+        "C11" => fsmon::fault::run(&ctx),
         "C06" => checks::c06::run(&ctx),
         "C15" => checks::c15::run(&ctx),
         "C17" => codec::lfn::run(&ctx),
